@@ -39,7 +39,7 @@ def configs(tier, mode, pid):
     if os.path.exists(log):
         os.unlink(log)
     if tier == "quick":
-        sets, nsol, lim, to = "1=0,2;2=0,2;3=0,1;4=0;5=7;6=0;7=0,1", "3", "12", 400
+        sets, nsol, lim, to = "1=0,1,2;2=0,1,2;3=0,1;4=0;5=7;6=0;7=0,1", "3", "12", 400
     else:
         sets, nsol, lim, to = "1=0,1,2;2=0,2;3=0,1;4=0,1;5=1,2,4,7;6=0,1;7=0,1", "8", "25", 3500
     cfgs = []
@@ -48,11 +48,13 @@ def configs(tier, mode, pid):
             continue      # exception-contract only (see harness)
         my_sets = sets
         if tier == "quick" and ci in (2, 4, 8):      # slow constraints: one instantiation-limit setting in the quick tier
-            my_sets = sets.replace("1=0,2;2=0,2", "1=0;2=0")
-        if (tier == "quick" and ci in (2, 7, 8, 10)) or mode == "c02":
+            my_sets = sets.replace("1=0,1,2;2=0,1,2", "1=0;2=0")
+        if tier == "quick" and mode == "c02":
+            my_sets = my_sets.replace("1=0,1,2;2=0,1,2", "1=0,2;2=0,2")   # C01 already runs the middle value
+        if (tier == "quick" and ci in (2, 8, 10)) or mode == "c02":
             # unsat support makes these constraints exceed the wall-clock guard; C02 has dedicated unsat-support obligations
             my_sets = my_sets.replace("7=0,1", "7=0")
-        cfgs.append(dict(tag="c%d.opt%d" % (ci, opt), env={"VERIF_FIX": "0=%d,3=%d" % (ci, opt), "VERIF_SETS": my_sets, "VERIF_NSOL": nsol, "VERIF_CALL_LIMIT": lim,
+        cfgs.append(dict(tag="c%d.opt%d" % (ci, opt), env={"VERIF_FIX": "0=%d,3=%d" % (ci, opt), "VERIF_SETS": my_sets, "VERIF_TIE": "1" if tier == "quick" else "0", "VERIF_NSOL": nsol, "VERIF_CALL_LIMIT": lim,
                                                 "VERIF_MODE": mode, "VERIF_IGNORED_LOG": log}, only=["solve"], timeout=to))
     return cfgs, log, sets, nsol
 
